@@ -2431,6 +2431,55 @@ def iter_eq_same_projection(ctx, rule, b, bb, t, what):
               "differing ones equal" % (what, "; ".join(sg[0])[:100], "; ".join(sg[1])[:100]))
 
 
+REORDER_OPS = frozenset("sort sort_by sort_by_key sort_by_cached_key sort_unstable sort_unstable_by sort_unstable_by_key reverse dedup dedup_by "
+                        "dedup_by_key retain retain_mut swap swap_remove remove pop truncate drain rotate_left rotate_right "
+                        "select_nth_unstable select_nth_unstable_by select_nth_unstable_by_key split_off clear".split())
+
+
+def eq_no_reorder(ctx, rule, eqb, what):
+    """`==` compares the two values' sequences as stored: nothing inside it sorts, reverses, dedups or shortens a collected copy
+    (on one side that makes equal values unequal; on both it equates values whose sequences differ)"""
+    m = ctx.model
+    bad = 0
+    for bid in sorted(m.reach(eqb.id)):
+        b = ctx.fb.bodies[bid]
+        if not (bid == eqb.id or bid.startswith(eqb.id + "::")):
+            continue
+        for bb, t in b.calls():
+            p = callee_path(t) or ""
+            nm = p.split("::")[-1]
+            if nm not in REORDER_OPS or not t["args"] or t["args"][0]["k"] == "const":
+                continue
+            ty = (t["args"][0].get("pl") or {}).get("ty") or ""
+            if ty.startswith(("&mut [", "&mut std::vec::Vec<", "&mut std::collections::VecDeque<")) or p.startswith(("core::slice::", "std::slice::", "std::vec::Vec")):
+                bad += 1
+                ctx.bad(rule, "no-reorder|%s|%s" % (short(b.id), nm), m.where(b, bb),
+                        "%s applies `%s` to a collected sequence before comparing: the comparison no longer sees the elements in stored "
+                        "order (applied to one side, equal values compare unequal; applied to both, differing ones compare equal)" % (what, nm))
+    if not bad:
+        ctx.ok(rule, "no-reorder", m.where(eqb), "%s never sorts, reverses, dedups or shortens a sequence it compares" % what)
+
+
+def zip_sides_same(ctx, rule, chain, key, where, what):
+    """`a.zip(b)` inside `==`: both zipped sequences are produced by the same steps (insertion order with insertion order,
+    raw edges with raw edges), one rooted in each value"""
+    names = [c[0] for c in chain]
+    for i, c in enumerate(chain):
+        if c[0] != "std::iter::Iterator::zip" or not (c[2].kind == "call" and len(c[2][2]) > 1):
+            continue
+        from rules_sched import NEUTRAL_ITER
+        neutral = set(NEUTRAL_ITER) | {"std::ops::Deref::deref", "std::ops::DerefMut::deref_mut", "std::vec::Vec::<T, A>::as_slice",
+                                       "std::convert::AsRef::as_ref", "std::slice::<impl [T]>::iter_mut"}
+        left = [n_ for n_ in names[i + 1:] if not n_.startswith(("leaf:", "inline:")) and n_ not in neutral]
+        rch = iterator_chain(ctx, c[1], c[2][2][1])
+        right = [x[0] for x in rch if not x[0].startswith(("leaf:", "inline:")) and x[0] not in neutral]
+        lsig, rsig = projection_signature(ctx, chain[i + 1:]), projection_signature(ctx, rch)
+        ctx.check(left == right and lsig == rsig, rule, "zip-same-source|%s" % key, where,
+                  "both zipped sequences are produced by the same steps (%s)" % ", ".join(x.split("::")[-1] for x in left)[:100],
+                  "%s zips differently produced sequences: [%s] with [%s] - the pairs compared do not correspond (e.g. insertion order "
+                  "against topological order)" % (what, ", ".join(x.split("::")[-1] for x in left)[:120], ", ".join(x.split("::")[-1] for x in right)[:120]))
+
+
 def operand_shape(e, body=None):
     """the projection an operand applies, without its root: calls and fields from the outside in (the element index into the
     pair a zipped closure receives is part of the root)"""
@@ -2733,6 +2782,7 @@ def D4(ctx, rule="D4"):
                 sel = [n for n in names if n in SELECTIVE_ITER]
                 if "std::iter::Iterator::zip" in names:
                     zips += 1
+                    zip_sides_same(ctx, rule, chain, "%d" % zips, m.where(b, bb), "FnGraph ==")
                     if b.kind == "fn" and b.id != eqb.id and not (fb.fns.get(b.id) or {}).get("public"):
                         # a private generic helper (`pairs_all_eq(a, b, |x, y| ..)`) used for each of the two comparisons: one zipped
                         # comparison per call; each call's result must be a conjunct of the returned value
@@ -2778,11 +2828,13 @@ def D4(ctx, rule="D4"):
             lr_ = loop_region(ctx, hb, src_)
             if lr_ is None or lr_.get("iter_expr") is None:
                 continue
-            names_ = [c[0] for c in iterator_chain(ctx, hb, lr_["iter_expr"])]
+            chain_ = iterator_chain(ctx, hb, lr_["iter_expr"])
+            names_ = [c[0] for c in chain_]
             if "std::iter::Iterator::zip" not in names_:
                 continue
             n_loop += 1
             zips += 1
+            zip_sides_same(ctx, rule, chain_, "%d" % zips, m.where(hb, lr_["next_bb"]), "FnGraph ==")
             sel_ = [n_ for n_ in names_ if n_ in SELECTIVE_ITER]
             ctx.check(not sel_, rule, "zip-unfiltered|%d" % zips, m.where(hb, lr_["next_bb"]), "pairwise comparison loop over the full zipped sequences",
                       "comparison loop narrowed by %s" % sel_)
@@ -2791,6 +2843,7 @@ def D4(ctx, rule="D4"):
         if len([o for o in ctx.obs if o.status != "ok"]) == n_before:
             helper_ok.append(hb.id)
     eq_same_attribute(ctx, rule, eqb, "FnGraph ==")
+    eq_no_reorder(ctx, rule, eqb, "FnGraph ==")
     eq_monotone(ctx, rule, eqb, "FnGraph ==", eq_like, helper_ok)
     if iter_eqs:
         # every `a.eq(b)` result is a conjunct of the returned value: on each path to the return, the result is `false`, or is the
@@ -3062,6 +3115,32 @@ def worklist_loops(ctx, bodies):
             nexts = [(bb, b.blocks[bb]["term"]) for bb in loop if b.blocks[bb]["term"]["k"] == "call" and
                      callee_path(b.blocks[bb]["term"]) in ("std::iter::Iterator::next", "daggy::petgraph::visit::Topo::<N, VM>::next",
                                                            "daggy::Walker::walk_next")]
+            if not pops:
+                # `while let Some(x) = list.get(cursor) { cursor += 1; .. list.push(y) .. }`: a work list read at a cursor that
+                # moves forward by one on every iteration consumes each entry once, like `pop_front`
+                for bb in sorted(loop):
+                    t_ = b.blocks[bb]["term"]
+                    if t_["k"] != "call" or callee_path(t_) not in ("std::slice::<impl [T]>::get", "std::collections::VecDeque::<T, A>::get") or len(t_["args"]) < 2:
+                        continue
+                    cur = strip_refs(expr_operand(b, t_["args"][1]))
+                    if cur.kind != "local":
+                        continue
+                    writes = [(kind_, dbb, si_, x_) for kind_, dbb, si_, x_ in get_defs(b).of(cur[1]) if dbb in loop]
+                    incs = []
+                    for kind_, dbb, si_, x_ in writes:
+                        if kind_ != "stmt":
+                            incs = None
+                            break
+                        v_ = expr_rvalue(b, x_["rv"], 0, (dbb, si_))
+                        v_ = strip_refs(v_[1]) if v_.kind == "field" and v_[2] == 0 else strip_refs(v_)
+                        if v_.kind == "binop" and v_[1] in ("Add", "AddWithOverflow") and is_const(v_[3], 1) and strip_refs(v_[2]) == cur:
+                            incs.append(dbb)
+                        else:
+                            incs = None
+                            break
+                    if incs and len(incs) == 1 and all(b.dominates(incs[0], s_) or incs[0] == s_ for (s_, h_) in b.back_edges() if h_ == hdr and s_ in loop):
+                        pops = [(bb, t_)]
+                        break
             if pops:
                 q = fl.sources_operand(b, pops[0][1]["args"][0])
                 out.append((b, hdr, loop, pops[0][0], q))
@@ -3257,6 +3336,45 @@ def progress_guard(ctx, body, bb, t):
                         if pushed is None or same_value_expr(ctx, body, pushed, i1) or \
                                 any(strip_refs(x) == strip_refs(i1) for x in walk_expr(pushed)):
                             return True, "strict improvement `%s %s %s` with the improved value stored" % (fmt_expr(l, body), op, fmt_expr(r, body))
+        # `if self.rank_raise(child, candidate) { queue.push(child) }`: a private helper that stores the candidate exactly when
+        # it is a strict improvement and returns whether it did
+        if e.kind == "call" and e[1] in ctx.fb.bodies and taken_true and ctx.fb.bodies[e[1]].kind == "fn" and \
+                not (ctx.fb.fns.get(e[1]) or {}).get("public"):
+            hb = ctx.fb.bodies[e[1]]
+            hre = return_expr(hb)
+            if hre is not None and not hb.back_edges():
+                hstores = stores_through_index(hb)
+                for st in hstores:
+                    for hsb, hde, hvals in cond_guards(hb, st["bb"]):
+                        he = strip_refs(hde)
+                        if fmt_expr(he, hb) != fmt_expr(strip_refs(hre), hb) or not ("otherwise" in hvals and "0" not in hvals):
+                            continue
+                        hc = None
+                        if he.kind == "call" and he[1] in ("std::cmp::PartialOrd::gt", "std::cmp::PartialOrd::lt"):
+                            hc = (strip_refs(he[2][0]), strip_refs(he[2][1]))
+                        elif he.kind == "binop" and he[1] in ("Gt", "Lt"):
+                            hc = (strip_refs(he[2]), strip_refs(he[3]))
+                        if hc is None:
+                            continue
+                        for (old, new) in (hc, hc[::-1]):
+                            er = elem_read(old)
+                            if er is None:
+                                continue
+                            i1 = node_index_arg(expr_operand(hb, st["idx"]))
+                            i2 = node_index_arg(er[1])
+                            if i1 is None or i2 is None or not same_value_expr(ctx, hb, i1, i2):
+                                continue
+                            if fl.sources_operand(hb, st["container"]) != sources_of_expr(ctx, hb, er[0]):
+                                continue
+                            newv = strip_refs(st["value"])
+                            if not (same_value_expr(ctx, hb, newv, new) or fmt_expr(newv, hb) == fmt_expr(new, hb)):
+                                continue
+                            # the node whose value was raised is the node pushed at the call
+                            i1s = strip_refs(i1)
+                            if i1s.kind == "arg" and 1 <= i1s[1] <= len(e[2]):
+                                ai = strip_refs(e[2][i1s[1] - 1])
+                                if pushed is None or same_value_expr(ctx, body, pushed, ai) or any(strip_refs(x) == ai for x in walk_expr(pushed)):
+                                    return True, "strict improvement stored by %s, which returns whether it stored" % short(hb.id)
         # test-and-set visited flag
         if e.kind in ("deref", "local", "call", "unop"):
             x = e[2] if e.kind == "unop" else e
@@ -3379,6 +3497,16 @@ def C13_rules(ctx, rule="K"):
                 e0 = strip_refs(chain[1][2][2][0])
             ok1 = e0.kind == "agg" and e0[2] == "rank::Rank" and is_const(e0[4][0], 0) and e1.kind == "call" and e1[1] in NODE_COUNT_FNS
             why = "initial ranks are repeat(%s).take(%s)" % (fmt_expr(e0, rc), fmt_expr(e1, rc))
+    if not ok1 and len(allocs) == 1 and allocs[0][4] == "std::vec::from_elem" and allocs[0][1] in fb.bodies and allocs[0][1] != rc.id and \
+            allocs[0][1] in m.reach(rc.id) and not (fb.fns.get(allocs[0][1]) or {}).get("public"):
+        # the vector is made by a private constructor of the calculation's working state (`RankPropagation::new(node_count)`)
+        hb_ = fb.bodies[allocs[0][1]]
+        t = hb_.blocks[allocs[0][2]]["term"]
+        e0 = strip_refs(expr_operand(hb_, t["args"][0]))
+        nsrc = fl.sources_operand(hb_, t["args"][1])
+        ok1 = e0.kind == "agg" and e0[2] == "rank::Rank" and is_const(e0[4][0], 0) and bool(nsrc) and \
+            all(x.kind == "alloc" and x[4] in NODE_COUNT_FNS for x in nsrc)
+        why = "initial ranks are vec![%s; n] in %s with n from %s" % (fmt_expr(e0, hb_), short(hb_.id), [fmt_src(x) for x in nsrc][:2])
     ctx.check(ok1, rule + "1", "init", where, "initial ranks are Rank(0) for node_count() entries", why)
     # K2: seeds = nodes without parents
     wl, others = worklist_loops(ctx, m.reach_bodies(rc.id))
@@ -3388,10 +3516,29 @@ def C13_rules(ctx, rule="K"):
         why = "work queue is not a collect() of the nodes without parents"
         helper_ids = {bx.id for bx in m.reach_bodies(rc.id) if bx.kind == "fn" and not (fb.fns.get(bx.id) or {}).get("public")} | {rc.id}
         colls = [s for s in q if s.kind == "alloc" and s[4] == "std::iter::Iterator::collect" and s[1] in helper_ids and not s[3]]
+        fill = None
         if len(colls) == 1:
             cbody = fb.bodies[colls[0][1]]      # the rank calculation itself or a private helper that builds the queue
-            ct = cbody.blocks[colls[0][2]]["term"]
-            chain = iterator_chain(ctx, cbody, expr_operand(cbody, ct["args"][0]))
+            fill = (cbody, cbody.blocks[colls[0][2]]["term"]["args"][0])
+        elif not colls:
+            # `queue = VecDeque::new(); queue.extend(<nodes without parents>)` before the loop (possibly in a private helper)
+            exts = []
+            for hid in sorted(helper_ids):
+                hb_ = fb.bodies[hid]
+                for ebb, et in hb_.calls():
+                    if callee_path(et) == "std::iter::Extend::extend" and len(et["args"]) > 1 and set(fl.sources_operand(hb_, et["args"][0])) & set(q):
+                        exts.append((hb_, ebb, et))
+            news_ = [s_ for s_ in q if s_.kind == "alloc" and not s_[3] and s_[4].split("::")[-1] in ("new", "with_capacity", "default")]
+            if len(exts) == 1 and len(news_) == 1 and len(q) == 1:
+                hb_, ebb, et = exts[0]
+                before = (ebb not in loop and hdr in b.reachable_fwd(ebb)) if hb_.id == b.id else \
+                    all(cb_.id == b.id and cbb_ not in loop and hdr in b.reachable_fwd(cbb_)
+                        for (cb_, cbb_, ct_) in fl.call_sites().get(hb_.id, []) if not fb.is_test_body(cb_)) and not hb_.back_edges()
+                if before and not [g for g in cond_guards(hb_, ebb)]:
+                    fill = (hb_, et["args"][1])
+        if fill is not None:
+            cbody = fill[0]
+            chain = iterator_chain(ctx, cbody, expr_operand(cbody, fill[1]))
             names = [c[0] for c in chain]
             srcn = [n for n in names if n in ALL_NODE_SOURCES] or (["range"] if ranges_all_nodes(chain) else [])
             filt = [(p, cb, e) for p, cb, e in chain if p in ("std::iter::Iterator::filter_map", "std::iter::Iterator::filter")]
@@ -3415,7 +3562,7 @@ def C13_rules(ctx, rule="K"):
                     seeds_ok = has_parents and not has_children and pol == 1
                     why = "seed predicate uses parents=%s children=%s; element kept when the parent walk is %s" % (
                         has_parents, has_children, {1: "empty", -1: "NON-empty", None: "?"}[pol])
-        if not seeds_ok and not colls:
+        if not seeds_ok and not colls and fill is None:
             # the queue starts empty and is filled by a loop over all nodes that pushes exactly the parent-less ones
             news = [s_ for s_ in q if s_.kind == "alloc" and s_[1] == rc.id and not s_[3] and s_[4].split("::")[-1] in ("new", "with_capacity", "default")]
             pre = []
@@ -3809,6 +3956,15 @@ def per_element_insertion(ctx, M, ins):
             return False, "the loop goes on to the next edge without examining the result of the insertion (`?`): edges after a failing one are still added"
     if not ok_ft:
         return False, "endpoints are not the (from, to) pair of the iterated element: (%s, %s)" % (fmt_expr(a, L), fmt_expr(c, L))
+    if any(x.kind == "index" for e_ in (a, c) for x in walk_expr(e_)):
+        return False, "endpoints are looked up by a computed index (%s, %s), not taken from the element the iteration hands out: the order " \
+                      "of insertion is whatever the index sequence says" % (fmt_expr(a, L), fmt_expr(c, L))
+    for bid in ctx.model.reach(M.id):
+        if bid == M.id or bid.startswith(M.id + "::"):
+            for bb_, t_ in fb.bodies[bid].calls():
+                if (callee_path(t_) or "").split("::")[-1] in REORDER_OPS and t_["args"] and t_["args"][0]["k"] != "const" and \
+                        ((t_["args"][0].get("pl") or {}).get("ty") or "").startswith(("&mut [", "&mut std::vec::Vec<")):
+                    return False, "the batch form reorders a sequence (`%s`) before inserting" % (callee_path(t_) or "").split("::")[-1]
     names = [x[0] for x in chain]
     sel = [x for x in names if x in SELECTIVE_ITER or x == "std::iter::Iterator::rev"]
     if sel:
